@@ -98,6 +98,9 @@ def build_node(n, objs):
             kw['duration'] = n['dur']
         return AtomicMultiChannelPT(*[ch(i) for i in n['subs']], identifier=ident, **kw)
     if k == 'Parallel':
+        if n.get('then_over') is not None:      # derived: an anonymous ParallelChannelPT rebuilt by with_parallel_channels
+            first = ParallelChannelPT(ch(n['tmpl']), {c: v for c, v in n['over']})
+            return first.with_parallel_channels({c: v for c, v in n['then_over']})
         return ParallelChannelPT(ch(n['tmpl']), {c: v for c, v in n['over']}, identifier=ident)
     if k == 'Arithmetic':
         def operand(o):
@@ -927,7 +930,7 @@ def gen_cases(rng, tier, n_store=None, n_doc=None):
         except Exception:   # noqa  invalid template / degenerate history: skip
             continue
     from props import c10_ord
-    r4 = c10_ord.round4_cases(tier)
+    r4 = c10_ord.round4_cases(tier) + c10_ord.round5_cases(tier)
     # the declared duration of the model against the code's, for the clean random forests and the order family
     n_dur = 45 if tier == 'quick' else 800
     durs = [{'kind': 'dur', 'nodes': c['nodes'], 'roots': c['roots'], 'flags': ['dur']}
